@@ -61,7 +61,7 @@ PROCS_RULE = ("two search modes. random: seed -> plan (process scripts over the 
               "(call instance x instant in its window at which anything happened x applicable fault kind x event priority just above / just below the victim's) is run as its own plan. "
               "distinct = distinct trace hashes; non-trivial = at least one fault landed on a blocked operation")
 
-def procs_jobs(only, mixes, nq, nt, san_mix=None, crowd_mix=None, sweep_mixes=None, churn=0):
+def procs_jobs(only, mixes, nq, nt, san_mix=None, crowd_mix=None, sweep_mixes=None, churn=0, extra=None):
     jobs = []
     per = max(1, nq // max(1, len(mixes)))
     pert = max(1, nt // max(1, len(mixes)))
@@ -73,6 +73,10 @@ def procs_jobs(only, mixes, nq, nt, san_mix=None, crowd_mix=None, sweep_mixes=No
         # priority churn on one long waiting list (8/16-waiter thresholds), see gen_churn in procs_gen.c
         jobs.append(J("procs", "rel", churn, churn * 40, cfg="churn=1", only=only))
         jobs.append(J("procs", "san", max(500, churn // 10), churn * 4, cfg="churn=1", only=only))
+    for cfg, n in (extra or []):
+        # special generator shapes: storm=1 (everything in very few instants, ends and restarts), huge=1 (amounts around 2^63 and 2^64)
+        jobs.append(J("procs", "rel", n, n * 40, cfg=cfg, only=only))
+        jobs.append(J("procs", "san", max(500, n // 10), n * 4, cfg=cfg, only=only))
     jobs.append(J("procs", "san", max(2000, nq // 12), nt // 12, cfg=san_mix or mixes[-1], only=only))
     # single-fault sweep: for each sampled fault-free base program, every (blocking call x instant in its window x fault kind x priority side)
     sw = sweep_mixes if sweep_mixes is not None else [m.split(",faults")[0] for m in mixes[:2]]
@@ -83,7 +87,7 @@ def procs_jobs(only, mixes, nq, nt, san_mix=None, crowd_mix=None, sweep_mixes=No
 
 JOBS.update({
     "C04": dict(level="fault_enumeration", rule=PROCS_RULE,
-        jobs=procs_jobs("C04", ["mix=wait,faults=0", "mix=wait,faults=1", "mix=wait,faults=2", "mix=res,faults=2", "mix=all,faults=2"], 900000, 24000000, crowd_mix="mix=wait,faults=2,crowd=1"),
+        jobs=procs_jobs("C04", ["mix=wait,faults=0", "mix=wait,faults=1", "mix=wait,faults=2", "mix=res,faults=2", "mix=all,faults=2"], 900000, 24000000, crowd_mix="mix=wait,faults=2,crowd=1", extra=[("mix=wait,faults=2,storm=1", 60000), ("mix=wait,faults=0,storm=1", 30000)]),
         wall_quick=55, wall_thorough=1200,
         assumptions=["interrupts may be lost (the property does not promise delivery) but never duplicated, late or stale",
                      "a timer still armed when its process receives an interrupt or preemption notice may or may not fire afterwards (either is accepted)",
@@ -110,11 +114,11 @@ JOBS.update({
         wall_quick=55, wall_thorough=1200,
         assumptions=["evaluated at every instant boundary (detected retrospectively) and at quiescence through the public queries only"]),
     "C09": dict(level="fault_enumeration", rule=PROCS_RULE,
-        jobs=procs_jobs("C09", ["mix=wait,faults=2", "mix=res,faults=2", "mix=pool,faults=2", "mix=all,faults=2"], 900000, 24000000, crowd_mix="mix=wait,faults=2,crowd=1", sweep_mixes=["mix=wait", "mix=res", "mix=pool"]),
+        jobs=procs_jobs("C09", ["mix=wait,faults=2", "mix=res,faults=2", "mix=pool,faults=2", "mix=all,faults=2"], 900000, 24000000, crowd_mix="mix=wait,faults=2,crowd=1", sweep_mixes=["mix=wait", "mix=res", "mix=pool"], extra=[("mix=wait,faults=2,storm=1", 60000)]),
         wall_quick=55, wall_thorough=1200,
         assumptions=["a waiter that left its wait earlier in the same instant for another cause is not owed the end notification"]),
     "C11": dict(level="fault_enumeration", rule=PROCS_RULE,
-        jobs=procs_jobs("C11", ["mix=buf,faults=0", "mix=buf,faults=1", "mix=buf,faults=2", "mix=all,faults=2"], 300000, 8000000, crowd_mix="mix=buf,faults=2,crowd=1"),
+        jobs=procs_jobs("C11", ["mix=buf,faults=0", "mix=buf,faults=1", "mix=buf,faults=2", "mix=all,faults=2"], 300000, 8000000, crowd_mix="mix=buf,faults=2,crowd=1", extra=[("mix=buf,faults=1,huge=1", 60000), ("mix=buf,faults=0,huge=1", 30000)]),
         wall_quick=55, wall_thorough=1200,
         assumptions=["the amount argument is a harness-owned variable read while the call is still blocked, so the level equation is exact after every event"]),
     "C12": dict(level="fault_enumeration", rule=PROCS_RULE,
